@@ -11,6 +11,11 @@
                     allow-out-of-order, external labels, ONE fault (crash before
                     bucket operation k / operation k fails once; Exists calls count;
                     k = number of operations: death before the meta file is written)
+                    further: skipCorruptedBlocks and the block directories whose local meta.json
+                    is unreadable; upload concurrency > 1 with, per uploaded block, the order in
+                    which its chunk files went out (ANY permutation: all theorems quantify over
+                    every cfg, hence over every interleaving of the chunk uploads of a block
+                    before its index and meta.json)
      eligible c i   non-empty block of level 1, or any level with upload-compacted
                     (a compacted block that overlaps a block already in the bucket, or a bucket
                     that holds a partial upload, makes such a Sync return an error: the
@@ -22,7 +27,7 @@
 From Coq Require Import ZArith NArith List Bool.
 Import ListNotations.
 From Verif Require Import Lib.Corr Lib.Crash_Store Lib.Crash_Block Lib.Crash_BlockFacts Lib.Crash_BlockProgs.
-From Verif Require Import Gen.C35 Model.C35 Proofs.C35.
+From Verif Require Import Gen.C35 Model.C35 Proofs.C35 Proofs.C35_wedge.
 
 (* One Sync from any good state, with any fault: every bucket state it passes
    through satisfies the block invariant (so C28 holds at each of its crash
@@ -68,6 +73,31 @@ Theorem C35_every_crash_point_visible_complete : forall U L cs c st res,
 Proof. exact sync_visible_complete. Qed.
 Print Assumptions C35_every_crash_point_visible_complete.
 
+(* The property is not vacuous after a crash: after ANY history of syncs (any crash points,
+   any failing operations) an undisturbed sync with external labels RETURNS NIL - hence, by
+   C35_crash_then_sync, has published every eligible block - when no two local blocks overlap
+   in time (an overlap in the bucket is the one legitimate reason for refusing a compacted
+   block). This holds for the FIXED lazyOverlapChecker (repo_patches/C35-fix.patch): before
+   the fix a block directory without meta.json - what a sync that died in the middle of an
+   upload leaves behind - made the overlap check, and with it every later Sync that had a
+   compacted block to ship, fail for ever (witness: corpus/C35/wedge-own-partial-upload.json:
+   one compacted block, upload-compacted on, first sync dies after 3 bucket operations). *)
+Theorem C35_sync_can_succeed_after_crash : forall U L cs c st res lbl,
+  wf_univ_b U = true -> ranges_disjoint_b L = true ->
+  after_syncs U L ([], None) cs = Some st ->
+  c_fault c = NoFault -> c_lbl c = Some lbl -> c_corrupt c = [] ->
+  sync U L c (snd st) (fst st) = Some res -> r_ret res = true.
+Proof. exact sync_can_succeed_after_crash. Qed.
+Print Assumptions C35_sync_can_succeed_after_crash.
+
+(* ... and on the case: the no-wedge clause of pred_ok (a sync without fault that returns an
+   error must have a compacted block blocked by an overlap in the bucket) follows from
+   corr_ok when no two local blocks overlap. pred_ok = pred_core && wedge_all. *)
+Theorem C35_accepted_case_not_wedged : forall c,
+  corr_ok c = true -> match c with CSync _ L _ => ranges_disjoint_b L = true end -> wedge_all c = true.
+Proof. exact not_wedged_case. Qed.
+Print Assumptions C35_accepted_case_not_wedged.
+
 (* Link to the check: a case carries what the real Shipper did in every sync
    (mutating operations, bucket listing after each, returned nil?, meta file
    afterwards). If the model reproduces it, the predicate evaluated on those
@@ -91,10 +121,10 @@ Definition ex_U : univ :=
 Definition ex_L : locals :=
   [(0%N, mklinfo true 1 2000 3000); (1%N, mklinfo true 2 1000 2000); (2%N, mklinfo false 1 0 1000)].
 Definition ex_cs : list cfg :=
-  [mkcfg [0; 1; 2]%N true true (Some 1%N) (CrashAt 2) [];
-   mkcfg [0; 1; 2]%N true true (Some 1%N) (FailAt 2) [7%N];
-   mkcfg [0; 1; 2]%N true true (Some 1%N) (CrashAt 4) [8%N]].
-Definition ex_last : cfg := mkcfg [2; 1; 0]%N true true (Some 1%N) NoFault [].
+  [mkcfg [0; 1; 2]%N true true (Some 1%N) (CrashAt 2) [] false [] false [];
+   mkcfg [0; 1; 2]%N true true (Some 1%N) (FailAt 2) [7%N] false [] false [];
+   mkcfg [0; 1; 2]%N true true (Some 1%N) (CrashAt 4) [8%N] false [] true [[1%N]]].
+Definition ex_last : cfg := mkcfg [2; 1; 0]%N true true (Some 1%N) NoFault [] false [] false [].
 
 Example C35_nonvacuous :
   wf_univ_b ex_U = true
